@@ -36,6 +36,24 @@ theorem C01_text (vf : Err → Str) (tag : Nat) (e : Err) (h : stable e = true) 
   obtain ⟨e', h1, hs, _⟩ := C01_hops vf tag e h k
   exact ⟨e', h1, text_eq_of_shape hs⟩
 
+/-- No drift: what a knowing process decodes re-encodes to the very wire message it received. -/
+theorem C01_reencode (vf : Err → Str) (tag : Nat) (e : Err) (h : stable e = true) :
+    ∃ e', hop Full Full vf tag e = some e' ∧ encode Full vf e' = encode Full vf e ∧ stable e' = true := by
+  obtain ⟨e', h1, _, h3, h4⟩ := hop_ok_enc vf e [tag] h
+  exact ⟨e', h1, h4, h3⟩
+
+/-- No drift over any number of hops: the wire message at every hop is the message of the first
+    encoding (so in particular hop 2 sends what hop 1 sent). -/
+theorem C01_no_drift (vf : Err → Str) (tag : Nat) (e : Err) (h : stable e = true) :
+    ∀ k : Nat, ∃ e', hopsFull vf tag k e = some e' ∧ encode Full vf e' = encode Full vf e ∧ stable e' = true := by
+  intro k
+  induction k with
+  | zero => exact ⟨e, rfl, rfl, h⟩
+  | succ k ih =>
+    obtain ⟨e1, h1, hen1, hst1⟩ := ih
+    obtain ⟨e2, h2, hen2, hst2⟩ := C01_reencode vf (tag + k) e1 hst1
+    exact ⟨e2, by simp [hopsFull, h1, h2], hen2.trans hen1, hst2⟩
+
 /-- The crux for unregistered wrappers, for ALL byte strings. -/
 theorem C01_unregistered_wrapper_text (m c : Str) (h : m ≠ colonSp ++ c) :
     opaqueText (extractPrefix m c).1 (extractPrefix m c).2 c = m :=
